@@ -96,7 +96,7 @@ fn gen_paged_x(rng: &mut Rng, n: usize, out: &mut Vec<String>, early: bool) {
             let no = rng.below(4); its.push(format!("d{}.{}.{}.{}", if last { *rng.pick(&[0u32, 0, 4]) } else { 0 }, cookie, no, rng.below(no + 1)));
             pages.push(its.join(","));
         }
-        let uc = format!("u{}{}{}", if i % 17 == 16 { "P" } else { "" }, if !early && i % 3 == 1 { "E" } else { "" }, rng.below(3));
+        let uc = format!("u{}{}{}", if i % 17 == 16 { "P" } else { "" }, if !early && i % 3 == 1 { if i % 2 == 0 { "R" } else { "E" } } else { "" }, rng.below(3));
         if early && i % 17 != 16 {
             // the caller finishes early, after k items; half of the time the server has not sent anything beyond those k items
             // (the rest of that page, its final message included, is withheld), so that the page's search is still in flight
@@ -205,7 +205,9 @@ async fn run_paged(args: &[String]) -> (String, Option<String>) {
     let stop: Option<usize> = args.get(3).and_then(|x| x.parse().ok());
     let size: i32 = args[0].parse().unwrap();
     let uc = &args[1][1..];
-    let with_paged = uc.contains('P'); let chained = uc.contains('E'); let nother: usize = uc.replace('P', "").replace('E', "").parse().unwrap();
+    // "E": the chain [EntriesOnly, PagedResults]; "R": the same two adapters the other way round, [PagedResults, EntriesOnly] - paging outside,
+    // entries-only inside: what the caller sees is the same (entries of all pages, the reference URIs of all pages in the final result)
+    let with_paged = uc.contains('P'); let reversed = uc.contains('R'); let chained = uc.contains('E') || reversed; let nother: usize = uc.replace('P', "").replace('E', "").replace('R', "").parse().unwrap();
     let mut user: Vec<RawControl> = vec![];
     if with_paged { user.push(ldap3::controls::PagedResults { size: 5, cookie: vec![] }.into()); }
     for k in 0..nother { user.push(RawControl { ctype: format!("1.2.840.{}", k), crit: false, val: None }); }
@@ -259,7 +261,7 @@ async fn run_paged(args: &[String]) -> (String, Option<String>) {
     // odd page sizes: non-default search options and a (generous) timeout, which every follow-up request must repeat
     if size % 2 == 1 { l.with_search_options(ldap3::SearchOptions::new().deref(ldap3::DerefAliases::Always).typesonly(true).timelimit(50).sizelimit(100)); l.with_timeout(std::time::Duration::from_secs(30)); }
     // "E": the adapter chain [EntriesOnly, PagedResults]
-    let started = if chained { let ads: Vec<Box<dyn ldap3::adapters::Adapter<_, _>>> = vec![Box::new(EntriesOnly::new()), Box::new(PagedResults::new(size))];
+    let started = if chained { let ads: Vec<Box<dyn ldap3::adapters::Adapter<_, _>>> = if reversed { vec![Box::new(PagedResults::new(size)), Box::new(EntriesOnly::new())] } else { vec![Box::new(EntriesOnly::new()), Box::new(PagedResults::new(size))] };
             l.streaming_search_with(ads, "dc=x", Scope::Subtree, "(a=b)", vec!["cn"]).await }
         else { l.streaming_search_with(PagedResults::new(size), "dc=x", Scope::Subtree, "(a=b)", vec!["cn"]).await };
     let mut st = match started { Ok(s) => s, Err(ldap3::LdapError::AdapterInit(_)) => return ("rejected".into(), if with_paged { None } else { Some("a search without a caller paging control was rejected".into()) }), Err(e) => return (format!("starterr:{}", err_class(&e)), None) };
